@@ -114,11 +114,12 @@ deriving Repr, DecidableEq
 /-- one entry of `overrides` (value `None` = remove) or of `additional`, as `_init_config_parser` processes it -/
 def applyOp (c : IniCfg) (ini : Ini) : Op → Except IniErr Ini
   | .override s k v =>
-    if !hasOption c ini s k then .error .missing
+    -- (no file holds a section without a name: an item `:KEY` does not exist)
+    if s == "" || !hasOption c ini s k then .error .missing
     else if s == "Variables" then .ok { ini with vars := assocSet ini.vars (norm k) v }
     else .ok { ini with sections := ini.sections.map fun (n, kvs) => if n == s then (n, assocSet kvs (norm k) v) else (n, kvs) }
   | .remove s k =>
-    if !hasOption c ini s k then .error .missing
+    if s == "" || !hasOption c ini s k then .error .missing
     else if s == "Variables" then .ok { ini with vars := ini.vars.filter (fun p => p.1 != norm k) }    -- (the default section itself is never removed)
     else
       let secs := ini.sections.map fun (n, kvs) => if n == s then (n, kvs.filter (fun p => p.1 != norm k)) else (n, kvs)
@@ -126,7 +127,8 @@ def applyOp (c : IniCfg) (ini : Ini) : Op → Except IniErr Ini
       -- `if len(cp[section]) == 0: cp.remove_section(section)`
       if (sectionKeys c ini' s).isEmpty then .ok { ini' with sections := secs.filter (fun p => p.1 != s) } else .ok ini'
   | .add s k v =>
-    if hasOption c ini s k then .error .exists
+    if s == "" then .error .missing
+    else if hasOption c ini s k then .error .exists
     else if s == "Variables" then .ok { ini with vars := assocSet ini.vars (norm k) v }
     else
       let secs := if ini.sections.any (fun p => p.1 == s) then ini.sections else ini.sections ++ [(s, [])]
